@@ -59,7 +59,9 @@ def z_spec(draw):
 
 @st.composite
 def line_spec(draw):
-    k = draw(st.sampled_from(['cc', 'cc', 'box', 'box', 'far']))
+    k = draw(st.sampled_from(['cc', 'cc', 'box', 'box', 'far', 'nb']))
+    if k == 'nb':     # from inside a column into one of the columns adjoining it (their union need not be convex)
+        return {'k': 'nb', 'a': draw(st.integers(0, 3000)), 'b': draw(st.integers(0, 20)), 'wa': draw(wts()), 'wb': draw(wts())}
     if k == 'cc':
         return {'k': 'cc', 'a': draw(st.integers(0, 3000)), 'b': draw(st.integers(0, 3000)), 'wa': draw(wts()), 'wb': draw(wts())}
     if k == 'box':
@@ -81,8 +83,13 @@ def aid_spec(draw):
 def case_strategy(draw, quick=True):
     rc = draw(geo.geometry(max_nx=6, max_ny=6, max_nz=4, shipped=True, ops=True, with_surfaces=True, with_wells=False,
                            max_shipped_cols=60 if quick else 150, header=False))
+    if draw(st.integers(0, 5)) == 0:
+        # locally refined meshes with hanging nodes (a large column with mid-side nodes beside smaller ones, as in the
+        # shipped g1.dat / g3.dat): the union of two adjoining columns need not be convex
+        from props import c11
+        rc = dict(draw(c11.hang_base()), atmos=draw(st.sampled_from([0, 1, 2])), ops=[], surfaces=[])
     rc['det'] = True
-    if draw(st.integers(0, 3)) == 0:
+    if draw(st.integers(0, 3)) == 0 and rc['base']['kind'] != 'hang':
         rc['ops'] = list(rc.get('ops', [])) + [{'op': 'delete', 'cols': draw(st.lists(st.integers(0, 400), min_size=1, max_size=4))}]
     if draw(st.integers(0, 3)) == 0 and rc['base']['kind'] == 'rect':
         rc['ops'] = list(rc.get('ops', [])) + [{'op': 'rotate', 'angle': draw(st.sampled_from([90.0, 90.0, 180.0, 45.0, 1e-7, 30.0]))}]
@@ -546,6 +553,12 @@ def make_line(X, ls):
     k = ls['k']
     if k == 'cc':
         a = in_col_point(X, ls['a'] % X.n, ls['wa']); b = in_col_point(X, ls['b'] % X.n, ls['wb'])
+    elif k == 'nb':
+        ca = X.cols[ls['a'] % X.n]
+        nbs = sorted(ca.neighbour, key=geo.position_key)
+        if not nbs: return None
+        cb = nbs[ls['b'] % len(nbs)]
+        a = in_col_point(X, ls['a'] % X.n, ls['wa']); b = in_col_point(X, X.cols.index(cb), ls['wb'])
     elif k == 'box':
         a = (bb[0] + ls['p'][0] * (bb[2] - bb[0]), bb[1] + ls['p'][1] * (bb[3] - bb[1]))
         b = (bb[0] + ls['q'][0] * (bb[2] - bb[0]), bb[1] + ls['q'][1] * (bb[3] - bb[1]))
